@@ -1,12 +1,14 @@
 package vh
 
 import (
+	"encoding/base64"
 	"encoding/json"
 	"fmt"
 	"math"
 	"reflect"
 	"strconv"
 	"strings"
+	"unicode/utf8"
 
 	cli "github.com/jawher/mow.cli"
 	"pgregory.net/rapid"
@@ -37,6 +39,72 @@ type CliVal struct {
 	Form int    `json:"form"` // options: 0 --long=TOK, 1 -s=TOK, 2 -s TOK, 3 -sTOK, 4 --long TOK, 5 bare flag (bool only)
 }
 
+type cliValJSON struct {
+	Tok    string `json:"tok"`
+	TokB64 string `json:"tok_b64,omitempty"` // set when the token is not valid UTF-8 (JSON strings cannot carry it)
+	Form   int    `json:"form"`
+}
+
+// MarshalJSON keeps tokens that are not valid UTF-8 intact.
+func (c CliVal) MarshalJSON() ([]byte, error) {
+	j := cliValJSON{Tok: c.Tok, Form: c.Form}
+	if !utf8.ValidString(c.Tok) {
+		j.Tok = fmt.Sprintf("%q", c.Tok)
+		j.TokB64 = base64.StdEncoding.EncodeToString([]byte(c.Tok))
+	}
+	return json.Marshal(j)
+}
+
+// UnmarshalJSON is the inverse.
+func (c *CliVal) UnmarshalJSON(b []byte) error {
+	var j cliValJSON
+	if err := json.Unmarshal(b, &j); err != nil {
+		return err
+	}
+	c.Tok, c.Form = j.Tok, j.Form
+	if j.TokB64 != "" {
+		raw, err := base64.StdEncoding.DecodeString(j.TokB64)
+		if err != nil {
+			return err
+		}
+		c.Tok = string(raw)
+	}
+	return nil
+}
+
+type envVarJSON struct {
+	Set    bool   `json:"set"`
+	Val    string `json:"val"`
+	ValB64 string `json:"val_b64,omitempty"`
+}
+
+// MarshalJSON keeps values that are not valid UTF-8 intact.
+func (e EnvVar) MarshalJSON() ([]byte, error) {
+	j := envVarJSON{Set: e.Set, Val: e.Val}
+	if !utf8.ValidString(e.Val) {
+		j.Val = fmt.Sprintf("%q", e.Val)
+		j.ValB64 = base64.StdEncoding.EncodeToString([]byte(e.Val))
+	}
+	return json.Marshal(j)
+}
+
+// UnmarshalJSON is the inverse.
+func (e *EnvVar) UnmarshalJSON(b []byte) error {
+	var j envVarJSON
+	if err := json.Unmarshal(b, &j); err != nil {
+		return err
+	}
+	e.Set, e.Val = j.Set, j.Val
+	if j.ValB64 != "" {
+		raw, err := base64.StdEncoding.DecodeString(j.ValB64)
+		if err != nil {
+			return err
+		}
+		e.Val = string(raw)
+	}
+	return nil
+}
+
 // VContainer is one option or argument of a value case.
 type VContainer struct {
 	Typ     int      `json:"typ"`
@@ -44,6 +112,8 @@ type VContainer struct {
 	Default []string `json:"default"` // tokens valid for the type (one for single-valued types)
 	Env     []EnvVar `json:"env"`
 	Cli     []CliVal `json:"cli"`
+	// UsePtr: declared through the *Ptr API (BoolPtr(&into, ...)) instead of the value-returning one
+	UsePtr bool `json:"use_ptr,omitempty"`
 }
 
 // ValueCase is the case type of C06, C13 and C15.
@@ -236,33 +306,61 @@ func declareValue(app *cli.Cli, ci int, c *VContainer, nopt *int, prefix string,
 	switch c.Typ {
 	case TBool:
 		var p *bool
-		if c.IsArg {
+		switch {
+		case c.IsArg && c.UsePtr:
+			p = new(bool)
+			app.BoolPtr(p, cli.BoolArg{Name: name, Value: def(0).(bool), EnvVar: envList, SetByUser: set})
+		case c.IsArg:
 			p = app.Bool(cli.BoolArg{Name: name, Value: def(0).(bool), EnvVar: envList, SetByUser: set})
-		} else {
+		case c.UsePtr:
+			p = new(bool)
+			app.BoolPtr(p, cli.BoolOpt{Name: name, Value: def(0).(bool), EnvVar: envList, SetByUser: set})
+		default:
 			p = app.Bool(cli.BoolOpt{Name: name, Value: def(0).(bool), EnvVar: envList, SetByUser: set})
 		}
 		return vHolder{func() []interface{} { return one(*p) }, set}
 	case TString:
 		var p *string
-		if c.IsArg {
+		switch {
+		case c.IsArg && c.UsePtr:
+			p = new(string)
+			app.StringPtr(p, cli.StringArg{Name: name, Value: def(0).(string), EnvVar: envList, SetByUser: set})
+		case c.IsArg:
 			p = app.String(cli.StringArg{Name: name, Value: def(0).(string), EnvVar: envList, SetByUser: set})
-		} else {
+		case c.UsePtr:
+			p = new(string)
+			app.StringPtr(p, cli.StringOpt{Name: name, Value: def(0).(string), EnvVar: envList, SetByUser: set})
+		default:
 			p = app.String(cli.StringOpt{Name: name, Value: def(0).(string), EnvVar: envList, SetByUser: set})
 		}
 		return vHolder{func() []interface{} { return one(*p) }, set}
 	case TInt:
 		var p *int
-		if c.IsArg {
+		switch {
+		case c.IsArg && c.UsePtr:
+			p = new(int)
+			app.IntPtr(p, cli.IntArg{Name: name, Value: def(0).(int), EnvVar: envList, SetByUser: set})
+		case c.IsArg:
 			p = app.Int(cli.IntArg{Name: name, Value: def(0).(int), EnvVar: envList, SetByUser: set})
-		} else {
+		case c.UsePtr:
+			p = new(int)
+			app.IntPtr(p, cli.IntOpt{Name: name, Value: def(0).(int), EnvVar: envList, SetByUser: set})
+		default:
 			p = app.Int(cli.IntOpt{Name: name, Value: def(0).(int), EnvVar: envList, SetByUser: set})
 		}
 		return vHolder{func() []interface{} { return one(*p) }, set}
 	case TFloat:
 		var p *float64
-		if c.IsArg {
+		switch {
+		case c.IsArg && c.UsePtr:
+			p = new(float64)
+			app.Float64Ptr(p, cli.Float64Arg{Name: name, Value: def(0).(float64), EnvVar: envList, SetByUser: set})
+		case c.IsArg:
 			p = app.Float64(cli.Float64Arg{Name: name, Value: def(0).(float64), EnvVar: envList, SetByUser: set})
-		} else {
+		case c.UsePtr:
+			p = new(float64)
+			app.Float64Ptr(p, cli.Float64Opt{Name: name, Value: def(0).(float64), EnvVar: envList, SetByUser: set})
+		default:
 			p = app.Float64(cli.Float64Opt{Name: name, Value: def(0).(float64), EnvVar: envList, SetByUser: set})
 		}
 		return vHolder{func() []interface{} { return one(*p) }, set}
@@ -275,9 +373,16 @@ func declareValue(app *cli.Cli, ci int, c *VContainer, nopt *int, prefix string,
 			return d
 		}).([]string)
 		var p *[]string
-		if c.IsArg {
+		switch {
+		case c.IsArg && c.UsePtr:
+			p = new([]string)
+			app.StringsPtr(p, cli.StringsArg{Name: name, Value: d, EnvVar: envList, SetByUser: set})
+		case c.IsArg:
 			p = app.Strings(cli.StringsArg{Name: name, Value: d, EnvVar: envList, SetByUser: set})
-		} else {
+		case c.UsePtr:
+			p = new([]string)
+			app.StringsPtr(p, cli.StringsOpt{Name: name, Value: d, EnvVar: envList, SetByUser: set})
+		default:
 			p = app.Strings(cli.StringsOpt{Name: name, Value: d, EnvVar: envList, SetByUser: set})
 		}
 		return vHolder{func() (o []interface{}) {
@@ -295,9 +400,16 @@ func declareValue(app *cli.Cli, ci int, c *VContainer, nopt *int, prefix string,
 			return d
 		}).([]int)
 		var p *[]int
-		if c.IsArg {
+		switch {
+		case c.IsArg && c.UsePtr:
+			p = new([]int)
+			app.IntsPtr(p, cli.IntsArg{Name: name, Value: d, EnvVar: envList, SetByUser: set})
+		case c.IsArg:
 			p = app.Ints(cli.IntsArg{Name: name, Value: d, EnvVar: envList, SetByUser: set})
-		} else {
+		case c.UsePtr:
+			p = new([]int)
+			app.IntsPtr(p, cli.IntsOpt{Name: name, Value: d, EnvVar: envList, SetByUser: set})
+		default:
 			p = app.Ints(cli.IntsOpt{Name: name, Value: d, EnvVar: envList, SetByUser: set})
 		}
 		return vHolder{func() (o []interface{}) {
@@ -315,9 +427,16 @@ func declareValue(app *cli.Cli, ci int, c *VContainer, nopt *int, prefix string,
 			return d
 		}).([]float64)
 		var p *[]float64
-		if c.IsArg {
+		switch {
+		case c.IsArg && c.UsePtr:
+			p = new([]float64)
+			app.Floats64Ptr(p, cli.Floats64Arg{Name: name, Value: d, EnvVar: envList, SetByUser: set})
+		case c.IsArg:
 			p = app.Floats64(cli.Floats64Arg{Name: name, Value: d, EnvVar: envList, SetByUser: set})
-		} else {
+		case c.UsePtr:
+			p = new([]float64)
+			app.Floats64Ptr(p, cli.Floats64Opt{Name: name, Value: d, EnvVar: envList, SetByUser: set})
+		default:
 			p = app.Floats64(cli.Floats64Opt{Name: name, Value: d, EnvVar: envList, SetByUser: set})
 		}
 		return vHolder{func() (o []interface{}) {
@@ -562,7 +681,7 @@ func describeContainers(c *ValueCase) string {
 var TokPool = []string{"0", "1", "-1", "+5", "007", "42", "9223372036854775807", "9223372036854775808", "-9223372036854775808", "-9223372036854775809",
 	"1e3", "1.5", ".5", "5.", "0x10", "0b1", "0o7", "1_000", "inf", "-Inf", "+Inf", "Infinity", "NaN", "nan", "1e309", "-1e309", "1e-400", "0x1p-2", "1E5",
 	"true", "false", "T", "F", "t", "f", "TRUE", "FALSE", "True", "False", "yes", "no", "tRUE", "1.0", "00", "-0", "+0", "-0.0",
-	" 1", "1 ", "abc", "é", "٣", "1,2", "2147483648", "4294967296", "18446744073709551616", "1e", "e1", "--1", "+-1", "0.1e+1", "x"}
+	" 1", "1 ", "abc", "é", "٣", "1,2", "\xff\xfe", "caf\xe9", "\xc3(", "1\x80", "2147483648", "4294967296", "18446744073709551616", "1e", "e1", "--1", "+-1", "0.1e+1", "x"}
 
 var numericShape = rapid.StringMatching(`[-+]?(0x|0X|0b|0o)?[0-9a-fA-F_]{1,20}(\.[0-9]{0,5})?([eEpP][-+]?[0-9]{1,3})?`)
 
@@ -621,7 +740,11 @@ func usableCliToken(tok string, typ int, isArg bool, form int, writeDD, argDD bo
 
 // GenValueCase draws a value case.
 func GenValueCase(t *rapid.T, mode ValueGenMode) *ValueCase {
-	c := &ValueCase{OptsSpec: intn(t, 2, "optsspec"), ArgDD: chance(t, 1, 2, "argdd"), WriteDD: chance(t, 1, 2, "writedd")}
+	// ArgDD (argument part written "[-- X...]") is no longer generated: with a spec-level -- behind an optional option part,
+	// reading an option token as the argument is a derivation the spec allows too (DESIGN.md 3.4c); which one the parser
+	// picks is not promised, and the typed conversion of the other reading would fail. Dash-prefixed argument tokens are
+	// delivered behind an explicit -- instead.
+	c := &ValueCase{OptsSpec: intn(t, 2, "optsspec"), ArgDD: false, WriteDD: chance(t, 1, 2, "writedd")}
 	nopts := rapid.IntRange(0, 2).Draw(t, "nopts")
 	hasArg := chance(t, 1, 2, "hasarg")
 	if mode.OneOnly {
@@ -635,7 +758,7 @@ func GenValueCase(t *rapid.T, mode ValueGenMode) *ValueCase {
 		nopts = 1
 	}
 	mk := func(isArg bool) VContainer {
-		vc := VContainer{Typ: intn(t, 7, "typ"), IsArg: isArg}
+		vc := VContainer{Typ: intn(t, 7, "typ"), IsArg: isArg, UsePtr: chance(t, 1, 3, "useptr")}
 		nd := 1
 		if multi(vc.Typ) {
 			nd = rapid.IntRange(0, 2).Draw(t, "ndef")
